@@ -22,8 +22,8 @@ def bounded(tier, seed):
 
 MANIFEST = dict(
     category="other",
-    text="Contract-based proof of the residual-graph construction on the real source (3 nested loops, quantified block invariants) + exhaustive bounded enumeration of balanced connected multiplicity vectors x adjacency orders through the real reconstruction.",
+    text='Contract-based proofs on the real source: the walk-formulation ENCODER (_encode_walks, all rows, for every assignment) and the residual-graph construction (3 nested loops, quantified block invariants) + exhaustive bounded enumeration of balanced connected multiplicity vectors x adjacency orders through the real reconstruction.',
     design_ref="DESIGN.md section 3 / C14",
-    note="Conservation through the Hierholzer splicing is bounded, not proved (stated stretch goal not reached).",
-    technique="contract-based deductive verification of the residual build (PyVC) + exhaustive bounded enumeration of the reconstruction",
+    note='Conservation through the Hierholzer splicing is bounded, not proved (stated stretch goal not reached).',
+    technique='contract-based deductive verification of encoder and residual build (PyVC) + exhaustive bounded enumeration of the reconstruction',
     engine="pyvc+rc")
